@@ -20,6 +20,7 @@ import (
 	"time"
 
 	"github.com/attestantio/dirk/util/loggers"
+	"github.com/attestantio/dirk/util/verifhook"
 	badger "github.com/dgraph-io/badger/v2"
 	"github.com/dgraph-io/badger/v2/options"
 	"github.com/opentracing/opentracing-go"
@@ -44,6 +45,7 @@ func NewStore(ctx context.Context,
 	opt.ValueLogLoadingMode = options.MemoryMap
 	opt.SyncWrites = true
 	opt.Logger = loggers.NewBadgerLogger(log)
+	verifhook.Note("badger.options", opt)
 	db, err := badger.Open(opt)
 	if err != nil {
 		// Fallback for systems that don't support mmap.
@@ -133,6 +135,10 @@ func (s *Store) Fetch(ctx context.Context, key []byte) ([]byte, error) {
 	if len(key) == 0 {
 		return nil, errors.New("no key provided")
 	}
+	if err := verifhook.Point(ctx, "fetch.pre", key); err != nil {
+		return nil, err
+	}
+	defer verifhook.Done(ctx, "fetch.post", key)
 
 	var value []byte
 	err := s.db.View(func(txn *badger.Txn) error {
@@ -181,6 +187,11 @@ func (s *Store) BatchStore(ctx context.Context, keys [][]byte, values [][]byte) 
 		}
 	}
 
+	if err := verifhook.Point(ctx, "batch.pre", keys...); err != nil {
+		return err
+	}
+	defer verifhook.Done(ctx, "batch.post", keys...)
+
 	wb := s.db.NewWriteBatch()
 	defer wb.Cancel()
 
@@ -205,6 +216,10 @@ func (s *Store) Store(ctx context.Context, key []byte, value []byte) error {
 	if len(value) == 0 {
 		return errors.New("no value provided")
 	}
+	if err := verifhook.Point(ctx, "store.pre", key); err != nil {
+		return err
+	}
+	defer verifhook.Done(ctx, "store.post", key)
 
 	return s.db.Update(func(txn *badger.Txn) error {
 		return txn.Set(key, value)
